@@ -299,6 +299,17 @@ class Engine:
             stack.extend(x.children())
         return acc
 
+    def check_bare(self, cond, timeout=1000):
+        """the condition alone (e.g. a sum of squares is never negative): no axioms, no path"""
+        self._tick()
+        sol = self.solver(timeout)
+        sol.add(cond)
+        t = time.time()
+        r = sol.check()
+        self.tq += time.time() - t
+        self.nq += 1
+        return str(r)
+
     def check_slice(self, cond, timeout=3000):
         """cone-of-influence query with T0 axioms only (sound for proving unsat:
         it uses a subset of the constraints)"""
@@ -378,7 +389,7 @@ class Engine:
             return self._branch(cond, sh)
         if any(self.alive[k] and ok and v for k, (v, ok) in enumerate(sh)):
             return self._branch(cond, sh)
-        if self.check_slice(cond) == 'unsat' or self.check_slice(abstract(cond)) == 'unsat':
+        if self.check_bare(cond) == 'unsat' or self.check_slice(cond) == 'unsat' or self.check_slice(abstract(cond)) == 'unsat':
             self.decisions.append((False, False))
             self.gsaved += 1
             return False
